@@ -148,7 +148,7 @@ def _emb4(f):
 @trigger('upstream_bmm_static_channelwise')
 def _bmm_srq_cw(f):
   from vf import modes as md
-  return any(t == 'BATCH_MATMUL' and v in ('const', 'const_adjy', 'const_adjx') and
+  return any(t == 'BATCH_MATMUL' and str(v).startswith('const') and
              mo in md.MODES and md.kind(mo) == 'SRQ' and
              md.wcfg(mo)['granularity'] == 'CHANNELWISE'
              for t, mo, v, _ in _up(f))
